@@ -58,6 +58,13 @@ pub fn run_case(seed: u64, c: &Value) -> Result<(), String> {
         let shards: Vec<Vec<u8>> = lens.iter().enumerate().map(|(t, l)| util::payload(seed, 7, t as u64, *l)).collect();
         let one = guarded!(reed_solomon_simd::encode(k, r, &shards));
         let ret = ret_of(&one);
+        // the same call through an iterator whose size_hint says nothing (lower bound 0, no upper bound)
+        let lazy = guarded!(reed_solomon_simd::encode(k, r, shards.iter().filter(|_| true).skip_while(|_| false)));
+        match (&one, &lazy) {
+            (Ok(a), Ok(b)) if a == b => {}
+            (Err(_), Err(_)) => {}
+            _ => return Err(format!("encode depends on the iterator type: slices give {ret}, a filtered iterator gives {}", ret_of(&lazy))),
+        }
         if !allowed.contains(&canon(&ret)) {
             return Err(format!("encode returned {ret}, allowed by OneShot.tla: {allowed:?}"));
         }
@@ -124,6 +131,17 @@ pub fn run_case(seed: u64, c: &Value) -> Result<(), String> {
         let ret = ret_of(&one);
         if !allowed.contains(&canon(&ret)) {
             return Err(format!("decode returned {ret}, allowed by OneShot.tla: {allowed:?}"));
+        }
+        let lazy = guarded!(reed_solomon_simd::decode(
+            k,
+            r,
+            o_sh.iter().filter(|_| true).map(|(i, s)| (*i, s)),
+            r_sh.iter().skip_while(|_| false).map(|(i, s)| (*i, s))
+        ));
+        match (&one, &lazy) {
+            (Ok(a), Ok(b)) if a == b => {}
+            (Err(_), Err(_)) => {}
+            _ => return Err(format!("decode depends on the iterator type: vectors give {ret}, a filtered iterator gives {}", ret_of(&lazy))),
         }
         // streaming twin: decoder for the inferred size, originals then recovery
         let twin = guarded!((|| -> Result<BTreeMap<usize, Vec<u8>>, reed_solomon_simd::Error> {
